@@ -353,6 +353,13 @@ func c11Run(c *core.C, idx int) {
 			continue
 		}
 		key := fmt.Sprintf("%s paths=%v excludes=%v", keyBase, paths, excludes)
+		if c.Rand.IntN(3) == 0 {
+			// the same selection with --exclude-imports: only the targeted files remain, on both sides
+			srcArgs = append(srcArgs, "--exclude-imports")
+			imgArgs = append(imgArgs, "--exclude-imports")
+			key += " --exclude-imports"
+			c.Count("selections_with_exclude_imports", 1)
+		}
 		a := run.Buf(wsDir, env, nil, srcArgs...)
 		b := run.Buf(wsDir, env, nil, imgArgs...)
 		c.Eval(2)
@@ -582,6 +589,6 @@ func init() {
 			return 64
 		},
 		Run:      c11Run,
-		Required: []string{"roundtrips", "packagings", "selections_compared", "lint_compared_nonempty", "breaking_compared_nonempty", "descriptors_compared"},
+		Required: []string{"roundtrips", "packagings", "selections_compared", "selections_with_exclude_imports", "lint_compared_nonempty", "breaking_compared_nonempty", "descriptors_compared"},
 	})
 }
